@@ -79,76 +79,79 @@ theorem written_has_lf {c : HdrCfg} {replace skip : Bool} {info : Extracted} {u 
   rw [ht, placeHeader_parts]
   simp [retranslate]
 
-/-- one step on the form against the step on the LF text -/
-theorem step_form {f : Text → Text} (hf : LEForm f) {o : Op} {u : Text} (hcr : NoCR u) (hlf : '\n' ∈ u) :
-    stepText (f u) o = f (nextLF f u o) ∧
-    (∀ T, annotateText o.c o.replace o.skipExisting o.info (f u) = .written T →
-      annotateText o.c o.replace false o.info u = .written (stepText u o.noSkip)) := by
-  unfold nextLF
-  cases hw : annotateText o.c o.replace o.skipExisting o.info (f u) with
-  | written T =>
-    have hw' := written_noskip hw
-    rw [hf.annot o.c o.replace o.info u hcr hlf] at hw'
-    obtain ⟨t', ha, hT⟩ := mapWritten_written hw'
-    have hst : stepText u o.noSkip = t' := by unfold stepText Op.noSkip; simp only [ha]
-    refine ⟨?_, fun T' hT' => by rw [hst]; exact ha⟩
-    rw [hst]
-    unfold stepText
-    simp only [hw, hT]
-  | skipped => exact ⟨by unfold stepText; simp only [hw], fun T h => by cases h⟩
-  | failed e => exact ⟨by unfold stepText; simp only [hw], fun T h => by cases h⟩
+/-- one writing step on the form against the step on the LF text -/
+theorem step_form {f : Text → Text} (hf : LEForm f) {o : Op} {u T : Text} (hcr : NoCR u) (hlf : '\n' ∈ u)
+    (hw : annotateText o.c o.replace o.skipExisting o.info (f u) = .written T) :
+    annotateText o.noSkip.c o.noSkip.replace o.noSkip.skipExisting o.noSkip.info u = .written (stepText u o.noSkip) ∧
+      T = f (stepText u o.noSkip) ∧ stepText (f u) o = f (stepText u o.noSkip) := by
+  have hw' := written_noskip hw
+  rw [hf.annot o.c o.replace o.info u hcr hlf] at hw'
+  obtain ⟨t', ha, hT⟩ := mapWritten_written hw'
+  have ha' : annotateText o.noSkip.c o.noSkip.replace o.noSkip.skipExisting o.noSkip.info u = .written t' := ha
+  have hst : stepText u o.noSkip = t' := by unfold stepText; simp only [ha']
+  rw [hst]
+  refine ⟨ha', hT, ?_⟩
+  unfold stepText
+  simp only [hw, hT]
 
-/-- **A history on a CRLF / CR file.** -/
-theorem history_form {norm : Text → Text} {f : Text → Text} (hf : LEForm f) (u : Text) (ops : List Op)
-    (hg : GoodRunForm norm f u ops) (hcr : NoCR u) (hlf : '\n' ∈ u) :
-    run (f u) ops = f (runLF f u ops) ∧ foldLineEndings (run (f u) ops) = runLF f u ops ∧
-    Declares norm (extractRaw (runLF f u ops))
-      ((extractRaw u).cpr ++ (accumulated (f u) ops).1) ((extractRaw u).lic ++ (accumulated (f u) ops).2) := by
+theorem accumulated_written {t t' : Text} {o : Op} {os : List Op}
+    (h : annotateText o.c o.replace o.skipExisting o.info t = .written t') :
+    accumulated t (o :: os) = (o.info.cpr ++ (accumulated t' os).1, o.info.lic ++ (accumulated t' os).2) := by
+  conv => lhs; unfold accumulated
+  simp only [h]
+
+theorem accumulatedCon_written {t t' : Text} {o : Op} {os : List Op}
+    (h : annotateText o.c o.replace o.skipExisting o.info t = .written t') :
+    accumulatedCon t (o :: os) = o.info.con ++ accumulatedCon t' os := by
+  conv => lhs; unfold accumulatedCon
+  simp only [h]
+
+/-- **A history on a CRLF / CR file is the history of the LF text behind it**: the file stays the form of an LF text, the
+    decoder reads that text, and the requests that count are the same. -/
+theorem history_form {f : Text → Text} (hf : LEForm f) (u : Text) (ops : List Op)
+    (hg : CleanRun f u ops) (hcr : NoCR u) (hlf : '\n' ∈ u) :
+    run (f u) ops = f (run u (lfOps f u ops)) ∧ foldLineEndings (run (f u) ops) = run u (lfOps f u ops) ∧
+    accumulated (f u) ops = accumulated u (lfOps f u ops) ∧ accumulatedCon (f u) ops = accumulatedCon u (lfOps f u ops) := by
   induction hg with
-  | nil u =>
-    refine ⟨rfl, hf.fold u hcr, ?_⟩
-    simpa [runLF, accumulated] using declares_self norm (extractRaw u)
-  | cons u o os hstep _ ih =>
-    obtain ⟨hst, hann⟩ := step_form hf (o := o) hcr hlf
-    rw [run_cons, hst]
-    unfold accumulated
-    simp only [runLF]
-    cases hw : annotateText o.c o.replace o.skipExisting o.info (f u) with
-    | written T =>
-      obtain ⟨hgood, hcr'⟩ := hstep ⟨T, hw⟩
-      have ha := hann T hw
-      have hnext : nextLF f u o = stepText u o.noSkip := by unfold nextLF; simp only [hw]
-      have hT : T = f (stepText u o.noSkip) := by
-        have := hst; unfold stepText at this; simp only [hw] at this; rw [this, hnext]
-      rw [hnext] at ih ⊢
-      obtain ⟨i1, i2, i3⟩ := ih hcr' (written_has_lf hcr ha)
-      refine ⟨i1, i2, ?_⟩
-      simp only
-      rw [hT]
-      have hs : Declares norm (extractRaw (stepText u o.noSkip)) ((extractRaw u).cpr ++ o.info.cpr) ((extractRaw u).lic ++ o.info.lic) :=
-        step_declares (o := o.noSkip) ha hgood
-      have ih1 : Declares norm (extractRaw (runLF f (stepText u o.noSkip) os)) (extractRaw (stepText u o.noSkip)).cpr
-          (extractRaw (stepText u o.noSkip)).lic :=
-        ⟨fun x hx => i3.1 x (List.mem_append_left _ hx), fun x hx => i3.2 x (List.mem_append_left _ hx)⟩
-      have h3 := declares_trans ih1 hs
-      refine ⟨fun x hx => ?_, fun x hx => ?_⟩
-      · rcases List.mem_append.mp hx with h | h
-        · exact h3.1 x (List.mem_append_left _ h)
-        · rcases List.mem_append.mp h with h | h
-          · exact h3.1 x (List.mem_append_right _ h)
-          · exact i3.1 x (List.mem_append_right _ h)
-      · rcases List.mem_append.mp hx with h | h
-        · exact h3.2 x (List.mem_append_left _ h)
-        · rcases List.mem_append.mp h with h | h
-          · exact h3.2 x (List.mem_append_right _ h)
-          · exact i3.2 x (List.mem_append_right _ h)
-    | skipped =>
-      have hnext : nextLF f u o = u := by unfold nextLF; simp only [hw]
-      rw [hnext] at ih ⊢
-      exact ih hcr hlf
-    | failed e =>
-      have hnext : nextLF f u o = u := by unfold nextLF; simp only [hw]
-      rw [hnext] at ih ⊢
-      exact ih hcr hlf
+  | nil u => exact ⟨rfl, hf.fold u hcr, rfl, rfl⟩
+  | wrote u o os T hw hcr' _ ih =>
+    obtain ⟨ha, hT, hst⟩ := step_form hf hcr hlf hw
+    obtain ⟨i1, i2, i3, i4⟩ := ih hcr' (written_has_lf hcr ha)
+    have hl : lfOps f u (o :: os) = o.noSkip :: lfOps f (stepText u o.noSkip) os := by
+      conv => lhs; unfold lfOps
+      simp only [hw]
+    have hw2 : annotateText o.c o.replace o.skipExisting o.info (f u) = .written (f (stepText u o.noSkip)) := by rw [hw, hT]
+    rw [hl, run_cons, run_cons, hst]
+    refine ⟨i1, i2, ?_, ?_⟩
+    · rw [accumulated_written hw2, accumulated_written ha, i3]; rfl
+    · rw [accumulatedCon_written hw2, accumulatedCon_written ha, i4]; rfl
+  | kept u o os hnw _ ih =>
+    obtain ⟨i1, i2, i3, i4⟩ := ih hcr hlf
+    have hst : stepText (f u) o = f u := by
+      unfold stepText
+      cases hw : annotateText o.c o.replace o.skipExisting o.info (f u) with
+      | written T => exact absurd hw (hnw T)
+      | skipped => rfl
+      | failed e => rfl
+    have hl : lfOps f u (o :: os) = lfOps f u os := by
+      conv => lhs; unfold lfOps
+      cases hw : annotateText o.c o.replace o.skipExisting o.info (f u) with
+      | written T => exact absurd hw (hnw T)
+      | skipped => rfl
+      | failed e => rfl
+    have ha : accumulated (f u) (o :: os) = accumulated (f u) os := by
+      conv => lhs; unfold accumulated
+      cases hw : annotateText o.c o.replace o.skipExisting o.info (f u) with
+      | written T => exact absurd hw (hnw T)
+      | skipped => rfl
+      | failed e => rfl
+    have hc : accumulatedCon (f u) (o :: os) = accumulatedCon (f u) os := by
+      conv => lhs; unfold accumulatedCon
+      cases hw : annotateText o.c o.replace o.skipExisting o.info (f u) with
+      | written T => exact absurd hw (hnw T)
+      | skipped => rfl
+      | failed e => rfl
+    rw [run_cons, hst, hl, ha, hc]
+    exact ⟨i1, i2, i3, i4⟩
 
 end C09L
